@@ -32,6 +32,7 @@ import (
 	"strconv"
 	"strings"
 	"sync"
+	"sync/atomic"
 	"time"
 
 	"github.com/gin-gonic/gin"
@@ -70,6 +71,9 @@ type Options struct {
 	// CaptureErrors records error-level (and worse) log messages so they can
 	// be fetched with DrainErrorLogs (gin's recovered panics end up there).
 	CaptureErrors bool
+	// CountAnswers raises the log level to trace (output still discarded) and counts the answers
+	// received by the Diameter clients.
+	CountAnswers bool
 }
 
 // Notification is one request received by the stub notification consumer.
@@ -86,9 +90,13 @@ type Stack struct {
 	Mongo    *fakemongo.Server
 	RfAddr   string
 	AbmfAddr string
-	CertPem  string
-	CertKey  string
-	Dir      string
+
+	ans              *ansHook
+	sockMu           sync.Mutex
+	seenRf, seenAbmf map[int]bool
+	CertPem          string
+	CertKey          string
+	Dir              string
 
 	app    *chfApp
 	cancel context.CancelFunc
@@ -129,6 +137,30 @@ func (a *chfApp) CancelContext() context.Context   { return a.ctx }
 var _ sbi.ServerChf = (*chfApp)(nil)
 
 // errHook keeps the first line of error-level log entries.
+// ansHook counts the answers the Diameter clients of the CHF receive (trace messages of
+// internal/rating.HandleSUA and internal/abmf.HandleCCA): one per completed exchange.
+type ansHook struct{ sua, cca int64 }
+
+func (h *ansHook) Levels() []logrus.Level { return []logrus.Level{logrus.TraceLevel} }
+func (h *ansHook) Fire(e *logrus.Entry) error {
+	switch {
+	case strings.HasPrefix(e.Message, "Received SUA"):
+		atomic.AddInt64(&h.sua, 1)
+	case strings.HasPrefix(e.Message, "Received CCA"):
+		atomic.AddInt64(&h.cca, 1)
+	}
+	return nil
+}
+
+// Answers: service-usage and credit-control answers received by the CHF's clients so far
+// (Options.CountAnswers).
+func (s *Stack) Answers() (sua, cca int64) {
+	if s.ans == nil {
+		return 0, 0
+	}
+	return atomic.LoadInt64(&s.ans.sua), atomic.LoadInt64(&s.ans.cca)
+}
+
 type errHook struct {
 	mu   sync.Mutex
 	msgs []string
@@ -270,6 +302,11 @@ func Start(dir string, opts Options) (*Stack, error) {
 		st.hook = &errHook{}
 		logger.Log.AddHook(st.hook)
 	}
+	if opts.CountAnswers {
+		st.ans = &ansHook{}
+		logger.Log.SetLevel(logrus.TraceLevel)
+		logger.Log.AddHook(st.ans)
+	}
 
 	if st.Mongo, err = fakemongo.Start(); err != nil {
 		return nil, err
@@ -382,6 +419,91 @@ func Start(dir string, opts Options) (*Stack, error) {
 }
 
 // Processor gives direct access to the real processor.
+// PeerConns counts the established TCP connections of this process whose remote end is the rating
+// server and the account-balance server (client side of the Diameter connections), read from
+// /proc/self/net/tcp.
+func (s *Stack) PeerConns() (rf, abmf int) {
+	rf, abmf, _, _ = s.PeerSockets()
+	return rf, abmf
+}
+
+// PeerSockets: established client-side connections to the two peers, and how many connections to each
+// have been seen so far (distinct client ports, whatever state the socket is in and whichever end
+// holds the TIME_WAIT entry: a closed connection stays visible for a minute, so the difference
+// between two readings is the number of connections dialled in between).
+func (s *Stack) PeerSockets() (rf, abmf, rfAll, abmfAll int) {
+	port := func(addr string) int {
+		_, p, _ := net.SplitHostPort(addr)
+		n, _ := strconv.Atoi(p)
+		return n
+	}
+	hexPort := func(a string) int {
+		k := strings.LastIndex(a, ":")
+		if k < 0 {
+			return -1
+		}
+		n, err := strconv.ParseInt(a[k+1:], 16, 32)
+		if err != nil {
+			return -1
+		}
+		return int(n)
+	}
+	rfPort, abmfPort := port(s.RfAddr), port(s.AbmfAddr)
+	s.sockMu.Lock()
+	defer s.sockMu.Unlock()
+	if s.seenRf == nil {
+		s.seenRf, s.seenAbmf = map[int]bool{}, map[int]bool{}
+	}
+	for _, f := range []string{"/proc/self/net/tcp", "/proc/self/net/tcp6"} {
+		data, err := os.ReadFile(f)
+		if err != nil {
+			continue
+		}
+		for i, line := range strings.Split(string(data), "\n") {
+			fs := strings.Fields(line)
+			if i == 0 || len(fs) < 4 || fs[3] == "0A" { // 0A = LISTEN
+				continue
+			}
+			lp, rp := hexPort(fs[1]), hexPort(fs[2])
+			est := fs[3] == "01" // 01 = ESTABLISHED
+			switch {
+			case rp == rfPort:
+				s.seenRf[lp] = true
+				if est {
+					rf++
+				}
+			case rp == abmfPort:
+				s.seenAbmf[lp] = true
+				if est {
+					abmf++
+				}
+			case lp == rfPort:
+				s.seenRf[rp] = true
+			case lp == abmfPort:
+				s.seenAbmf[rp] = true
+			}
+		}
+	}
+	return rf, abmf, len(s.seenRf), len(s.seenAbmf)
+}
+
+// WatchPeers samples the socket table every 100 microseconds until stop is closed, so that connections
+// which are opened and closed within one operation are seen (a closed loopback connection disappears
+// from the table at once when it is reset).
+func (s *Stack) WatchPeers(stop <-chan struct{}, done chan<- struct{}) {
+	defer close(done)
+	for {
+		select {
+		case <-stop:
+			s.PeerSockets()
+			return
+		default:
+		}
+		s.PeerSockets()
+		time.Sleep(100 * time.Microsecond)
+	}
+}
+
 func (s *Stack) Processor() *processor.Processor { return s.app.proc }
 
 // Context is the CHF context singleton.
